@@ -665,6 +665,14 @@ def _(spec):
     _comp(spec, "fuel", "duct")["dims"]["op"] = 17.0  # duct thicker than the lattice pitch; intercoolant negative
 
 
+@dev(["hex"], "invalid", "duct-beyond-pitch", invalid="overlap")
+def _(spec):
+    # in every block the duct is thicker than the lattice pitch: the inter-assembly coolant
+    # (a fluid, linked to the duct) has negative area, block areas stay consistent
+    for bn in spec["blocks"]:
+        _comp(spec, bn, "duct")["dims"]["op"] = 17.0
+
+
 @dev(["hex", "cart"], "invalid", "duplicate-component", invalid="duplicate name")
 def _(spec):
     b = _block(spec)
@@ -678,7 +686,9 @@ def _(spec):
 
 @dev(["hex", "cart"], "invalid", "duplicate-assembly", invalid="duplicate name")
 def _(spec):
-    a = copy.deepcopy(spec["assemblies"]["outer fuel"])
+    # the same name (and specifier) twice, with different contents
+    a = copy.deepcopy(spec["assemblies"]["igniter fuel"])
+    a["xs"] = ["E" for _ in a["xs"]]
     spec["extra_assemblies"] = [("igniter fuel", a)]
 
 
